@@ -447,3 +447,37 @@ Definition own_accessor_names_ok (fl : ctor_flags) (sd : sdecl) : bool :=
   nodup_str (own_accessor_names fl sd) &&
   forallb (fun n => negb (existsb (fun tf : tfield => String.eqb (fst (fst tf)) n) (struct_fields (self_inst sd))))
           (own_accessor_names fl sd).
+
+(* ---------------------------------------------- guards of the "*T satisfies" theorem *)
+(* no accessor of the embedding closure is hidden on *T: each is selected by its own name (no field or
+   shallower / same-depth method of that name), with its own signature *)
+Definition accessors_visible (pkg : pkg_spec) (v : view) (fuel : nat) (sd : sdecl) : bool :=
+  forallb (fun ps : path * sinst =>
+             forallb (fun m => match find_method pkg v (S fuel) (self_inst sd) (gm_name m) with
+                               | Some pm => sig_eqb m (snd pm)
+                               | None => false end) (own_methods v (snd ps)))
+          (struct_occs pkg fuel sd).
+
+(* the struct is not one of its own embedded structs (acyclic embedding) *)
+Definition not_self_embedded (pkg : pkg_spec) (fuel : nat) (sd : sdecl) : bool :=
+  forallb (fun o => match (if occ_emb o then struct_of pkg (occ_ty o) else None) with
+                    | Some (sd', _) => negb (String.eqb (sd_pkg sd') "" && String.eqb (sd_name sd') (sd_name sd))
+                    | None => true end)
+          (all_occ pkg fuel (self_inst sd)).
+
+(* the interface <e>Getter (<e>Setter) of the view does not, transitively, embed the interface of t *)
+Fixpoint iface_avoids (v : view) (fuel : nat) (getter : bool) (t e : ident) : bool :=
+  match fuel with
+  | O => true
+  | S fuel' =>
+      negb (String.eqb e t) &&
+      match find_ventry v e with
+      | None => true
+      | Some ve => forallb (fun ia : ident * list ty => iface_avoids v fuel' getter t (fst ia))
+                           (if getter then gs_get_ifaces (ve_data ve) else gs_set_ifaces (ve_data ve))
+      end
+  end.
+
+Definition ifaces_avoid (v : view) (fuel : nat) (sd : sdecl) (d : gs_data) : bool :=
+  forallb (fun ia : ident * list ty => iface_avoids v fuel true (sd_name sd) (fst ia)) (gs_get_ifaces d) &&
+  forallb (fun ia : ident * list ty => iface_avoids v fuel false (sd_name sd) (fst ia)) (gs_set_ifaces d).
